@@ -27,7 +27,8 @@ def script_await(ctx, R):
 def state_fn(ctx, api_pred, what):
     sites = ctx.r.state_fns(api_pred)
     ctx.need(sites, f"{what} (fs API applied to the state path)")
-    fns = sorted({ctx.r.outer_fn(b).name for (b, bb, t) in sites})
+    # the function the site's code belongs to (not the caller whose view it was found spliced into)
+    fns = sorted({ctx.r.outer_fn(ctx.f.bodies[b.origin(bb)]).name for (b, bb, t) in sites})
     return fns, sites
 
 
